@@ -67,14 +67,14 @@ def prepare(d: str, scen: str, n: int, odd_end: bool) -> str:
     return path
 
 
-def fresh(path: str, scen: str, suffix: str):
+def fresh(path: str, scen: str, suffix: str, keep: bool = False):
     gens = None
     if SCENS[scen][1]:
         rp0 = load(path, suffix=suffix + "cfg")
         cfg = rp0.e.config.dispatcher
         gens = (Dispatcher(cfg), ChargingFleetManager(cfg), Stateful())
     rp = load(path, suffix=suffix, generators=gens)
-    rec = Recorder()
+    rec = Recorder(keep_states=keep)
     rp.e.reporter.add_handler(rec)
     return rp, rec
 
@@ -205,6 +205,23 @@ def _shard(shard) -> Dict[str, Any]:
                     out["findings"].setdefault(("runner_interval", scen, "after_crank"), (f"{scen}: crank({a}) followed by run() stopped at {int(final2.s.sim_time)} with end_time {end} and step {step} ({len(tr)} steps in all)", dict(rpdata, composition=[a, "run"])))
                 elif tr != ref:
                     out["findings"].setdefault(("runner_run", scen, "after_crank"), (f"{scen}: crank({a}) followed by run() differs from crank({n})", dict(rpdata, composition=[a, "run"])))
+            # calls that do not flush (crank(..., flush_events=False), what a co-simulation does between two of its own logging
+            # points) followed by calls that do: the reports wait in the reporter; once flushed, the run has reported exactly the events
+            # of one crank(n) -- none lost, none twice -- and the states seen at the flushes are the single call's states
+            rp, rec = fresh(path, scen, "refkeep", keep=True)
+            _hc.crank(rp, n)
+            ref_events = sorted(e for st in rec.steps for e in st["events_full"])
+            ref_states = {st["sim_time"]: st["state"] for st in rec.steps}
+            for a in sorted({1, n // 2, n - 1}):
+                rp, rec = fresh(path, scen, f"defer{a}", keep=True)
+                rp = _hc.crank(rp, a, flush_events=False).runner_payload
+                rp = _hc.crank(rp, n - a).runner_payload
+                out["runs"] += 1
+                got_events = sorted(e for st in rec.steps for e in st["events_full"])
+                if got_events != ref_events:
+                    out["findings"].setdefault(("deferred_flush", scen, "events"), (f"{scen}: crank({a}, flush_events=False) followed by crank({n - a}) reports {len(got_events)} events in all, one crank({n}) reports {len(ref_events)}" + ("" if len(got_events) != len(ref_events) else " (same number, different events)"), dict(rpdata, composition=[f"{a} unflushed", n - a])))
+                if any(ref_states.get(st["sim_time"]) != st["state"] for st in rec.steps) or len(rec.steps) != n - a:
+                    out["findings"].setdefault(("deferred_flush", scen, "states"), (f"{scen}: crank({a}, flush_events=False) followed by crank({n - a}) flushes {len(rec.steps)} states that differ from those of one crank({n})", dict(rpdata, composition=[f"{a} unflushed", n - a])))
             # step() until it refuses
             rp, rec = fresh(path, scen, "stepper")
             count = 0
@@ -234,6 +251,44 @@ def _shard(shard) -> Dict[str, Any]:
     return out
 
 
+def _long_shard(shard) -> Dict[str, Any]:
+    """a long stretch of a shipped scenario (20 vehicles) without a single flush, then one flushed step: everything the run
+    reported meanwhile (well over ten thousand reports wait in the reporter) comes out at that flush, exactly the events that the
+    same number of flushed steps reports -- volume is the one thing the 10-step compositions cannot reach"""
+    name, n = shard
+    from nrel.hive.app import hive_cosim as _hc
+
+    d = scratch_dir("hivemc_comp_long_")
+    out = {"runs": 2, "steps": 2 * (n + 1), "findings": {}, "distinct": 1, "samples": [], "pending": 0}
+    try:
+        path = scenarios.BUILDERS[name][0](d)
+
+        def recorder(suffix):
+            rp = load(path, suffix=suffix)
+            rec = Recorder(keep_states=True)
+            rp.e.reporter.add_handler(rec)
+            return rp, rec
+
+        rp, rec = recorder("ref")
+        ref_final = _hc.crank(rp, n + 1).runner_payload
+        ref_events = sorted(e for st in rec.steps for e in st["events_full"])
+        ref_state = rec.steps[-1]["state"]
+        rp, rec = recorder("deferred")
+        rp = _hc.crank(rp, n, flush_events=False).runner_payload
+        out["pending"] = len(rp.e.reporter.reports)
+        rp = _hc.crank(rp, 1).runner_payload
+        got_events = sorted(e for st in rec.steps for e in st["events_full"])
+        rpdata = {"scenario": name, "n": n, "long": True}
+        if got_events != ref_events:
+            out["findings"][("deferred_flush", name, "events", "long_run")] = (f"{name}: crank({n}, flush_events=False) followed by crank(1) reports {len(got_events)} events in all, crank({n + 1}) reports {len(ref_events)}", rpdata)
+        if len(rec.steps) != 1 or rec.steps[-1]["state"] != ref_state or int(rp.s.sim_time) != int(ref_final.s.sim_time):
+            out["findings"][("deferred_flush", name, "states", "long_run")] = (f"{name}: the state after crank({n}, flush_events=False) and crank(1) differs from the state after crank({n + 1})", rpdata)
+    finally:
+        shutil.rmtree(d, ignore_errors=True)
+    out["findings"] = [(list(k), m, rp2) for k, (m, rp2) in out["findings"].items()]
+    return out
+
+
 def c15() -> int:
     c = Check("C15", "exhaustive enumeration of all compositions of an N-step run into successive crank calls (implementation-level), plus both batch-runner entry points")
     quick = tier() == "quick"
@@ -241,6 +296,9 @@ def c15() -> int:
     nparts = 8 if quick else 32
     shards = [(sc, n, odd, p, nparts) for sc in SCENS for odd in (False, True) for p in range(nparts)]
     res = pmap(_shard, rotate(shards, seed()))
+    long_runs = [("S5", 960)] if quick else [("S5", 2400), ("S6", 2400)]
+    lres = pmap(_long_shard, long_runs)
+    res = res + lres
     for r in res:
         for sig, msg, rp in r["findings"]:
             c.add(Finding("C15", sig, msg, dict(rp, engine="comp")))
@@ -255,6 +313,7 @@ def c15() -> int:
             "distinct_nontrivial": len(SCENS) * 2 * (comps - 1),
             "rule": f"all {comps} compositions of N={n} steps into successive crank(rp,k) calls x {len(SCENS)} scenarios ({list(SCENS)}; one with a stateful custom generator re-injected between calls, one with lazy file reading) x end_time multiple / not a multiple of the step, each from a freshly loaded payload; plus LocalSimulationRunner.run and repeated .step(); non-trivial = compositions with more than one call",
             "compositions_per_scenario": comps,
+            "deferred_flush": "per scenario crank(a, flush_events=False) + crank(N-a) for a in {1, N/2, N-1}: same events in all, same flushed states; long runs " + ", ".join(f"{nm}: {k} unflushed steps ({r['pending']} reports pending) + 1 flushed vs {k + 1} flushed" for (nm, k), r in zip(long_runs, lres)),
             "max_distinct_traces_in_a_shard": max(r["distinct"] for r in res),
             "samples": [s for r in res for s in r["samples"]][:3],
         }
@@ -267,7 +326,7 @@ def c15() -> int:
 
 def replay(body) -> int:
     rp = body["replay"]
-    r = _shard((rp["scenario"], rp["n"], rp["odd_end"], 0, 1))
+    r = _long_shard((rp["scenario"], rp["n"])) if rp.get("long") else _shard((rp["scenario"], rp["n"], rp["odd_end"], 0, 1))
     for sig, msg, _ in r["findings"]:
         print(" | ".join(sig), "::", msg)
     if r["findings"]:
